@@ -83,7 +83,10 @@ class DiscInfo(productmd.common.MetadataBase):
     def deserialize(self, parser):
         lines = parser
         self.timestamp = float(lines[0].strip())
-        self.description = lines[1].strip().strip("\"\'")
+        self.description = lines[1].strip()
+        # quotes are decoration only when they wrap the whole description; Fedora "Rawhide" keeps its own
+        while len(self.description) >= 2 and self.description[0] == self.description[-1] and self.description[0] in "\"\'":
+            self.description = self.description[1:-1].strip()
         self.arch = lines[2].strip()
         disc_numbers = None
         if len(parser) >= 4:
